@@ -43,6 +43,7 @@ func (s *Sched) nextChanID() int { s.chanSeq++; return s.chanSeq }
 type Chan struct {
 	id     int
 	cap    int
+	rdv    bool // the slot was filled while a receiver was already waiting (completed rendezvous)
 	buf    []Value
 	closed bool
 	// unbuffered rendezvous: slot holds one value until taken
@@ -405,6 +406,7 @@ func (in *Interp) chanSend(c *Chan, v Value) {
 		}
 	}
 	c.slotFull = true
+	c.rdv = c.recvWait > 0
 	c.slot = copyVal(v)
 	seq := c.takenSeq
 	s.block(func() bool { return c.takenSeq != seq || c.closed }, fmt.Sprintf("send(rendezvous) chan#%d", c.id))
@@ -423,6 +425,7 @@ func (c *Chan) take() (Value, bool) {
 		v := c.slot
 		c.slot = nil
 		c.slotFull = false
+		c.rdv = false
 		c.takenSeq++
 		return v, true
 	}
@@ -491,6 +494,16 @@ func (in *Interp) selectOp(instr *ssa.Select, fr *frame) Value {
 	}
 	readyNow := func() []int {
 		var r []int
+		// a value handed over on an unbuffered channel while this select was waiting is a completed
+		// rendezvous: the receiver is committed to that case
+		for i, x := range states {
+			if x.c != nil && x.dir == types.RecvOnly && x.c.env == "" && x.c.cap == 0 && x.c.slotFull && x.c.rdv {
+				r = append(r, i)
+			}
+		}
+		if len(r) > 0 {
+			return r
+		}
 		for i, x := range states {
 			if x.c == nil {
 				continue
@@ -607,8 +620,12 @@ func (in *Interp) selectOp(instr *ssa.Select, fr *frame) Value {
 				x.c.buf = append(x.c.buf, copyVal(x.send))
 			} else {
 				x.c.slotFull = true
+				x.c.rdv = true
 				x.c.slot = copyVal(x.send)
-				// a receiver is waiting (canSend), it will take it when scheduled
+				// a receiver is waiting (canSend): rendezvous - the send completes when it has taken the value
+				seq := x.c.takenSeq
+				c := x.c
+				s.block(func() bool { return c.takenSeq != seq || c.closed }, fmt.Sprintf("select-send(rendezvous) chan#%d", c.id))
 			}
 		}
 	}
